@@ -483,7 +483,7 @@ Proof.
       exact (sl_bits cd T bs Hue Hb).
     + cbn [tagset_of] in Hb0. inversion Hb0; subst b0.
       assert (Hby: exists dfl, by_tag cd [utag false 3] = Some (DcBits, dfl) /\ df_constructed dfl = true).
-      { destruct Hcd as [-> | ->]; eexists; split; vm_compute; reflexivity. }
+      { destruct Hcd as [-> | ->]; (eexists; split; [vm_compute; reflexivity | vm_compute; reflexivity]). }
       destruct Hby as (dfl & Hby & Hcf).
       exists DcBits, dfl, (VBits bs). split; [rewrite Hf1; exact Hby|]. split; [rewrite Habs0, (abs_wrappers T), Hb; reflexivity|].
       intros f0 Hmax Hf. rewrite Hwts.
